@@ -4,7 +4,7 @@
    type_affinity_stable with the identifier and type tables regenerated from the current source. *)
 From Coq Require Import List NArith Bool.
 Import ListNotations.
-From SAV.sql Require Import Ident Reflect ReflectProofs ReflectAffinity ReflectTheorems.
+From SAV.sql Require Import Ident Reflect ReflectProofs ReflectAffinity ReflectTheorems ReflectIndex.
 Open Scope N_scope.
 
 (* parse_master_sql (render_ddl tbl) = constraints_of tbl: for EVERY text made of arbitrary segments (header,
@@ -82,3 +82,42 @@ Print Assumptions c15_type_affinity_stable.
 Theorem c15_reflected_types_canonical : forall tab s, canon_args (affinity tab s).
 Proof. exact affinity_canon. Qed.
 Print Assumptions c15_reflected_types_canonical.
+
+(* ---- attributes that do not come from the CREATE TABLE text *)
+(* nullable: reflect(create(T)) = T for EVERY column, primary key members included, for every rule that ignores
+   the primary key flag (the rule is extracted from get_columns on every run: gen_nullable_rule_ok) *)
+Theorem c15_nullable_roundtrip : forall rule, (forall nn pk, rule nn pk = negb nn) ->
+  forall c, reflect_nullable rule c = c_nullable c.
+Proof. exact nullable_roundtrip. Qed.
+Print Assumptions c15_nullable_roundtrip.
+Theorem c15_nullable_pk_rule_refuted :
+  reflect_nullable (fun nn pk => negb nn && negb pk) {| c_nullable := true; c_pk := 2 |} = false.
+Proof. exact nullable_pk_rule_refuted. Qed.
+
+(* partial indexes: the WHERE predicate of the rendered CREATE INDEX is read back ... *)
+Theorem c15_index_pred_roundtrip : forall unique qname qtable qcols w,
+  pred_ok w = true ->
+  iclean (render_index_head unique qname qtable qcols) (rpar :: [sp] ++ kwWHERE ++ [sp] ++ w) = true ->
+  pred_search (render_index unique qname qtable qcols (Some w)) = Some w.
+Proof. exact index_pred_roundtrip. Qed.
+Print Assumptions c15_index_pred_roundtrip.
+Example c15_index_guard_satisfiable : pred_ok [120; 32; 62; 32; 48] = true /\
+  iclean (render_index_head true [117; 113] [116] [[120]]) (rpar :: [sp] ++ kwWHERE ++ [sp] ++ [120; 32; 62; 32; 48]) = true.
+Proof. vm_compute. auto. Qed.
+(* ... through the catalog of the schema the table lives in (sqlite_where and its absence), provided the
+   lookup query names that schema (extracted from get_indexes on every run: gen_index_query_qualified_ok) *)
+Theorem c15_reflect_where_roundtrip : forall ms schema m iname unique qname qtable qcols where_,
+  assoc_s ms (query_schema true schema) = Some m ->
+  assoc_s m iname = Some (render_index unique qname qtable qcols where_) ->
+  match where_ with
+  | Some w => pred_ok w = true /\
+              iclean (render_index_head unique qname qtable qcols) (rpar :: [sp] ++ kwWHERE ++ [sp] ++ w) = true
+  | None => iclean (render_index_head unique qname qtable qcols) [rpar] = true
+  end ->
+  reflect_where true ms schema iname = where_.
+Proof. exact reflect_where_roundtrip. Qed.
+Print Assumptions c15_reflect_where_roundtrip.
+Theorem c15_unqualified_index_query_refuted :
+  reflect_where true demo_masters (Some [97; 117; 120]) [117; 113] = Some [120; 32; 62; 32; 48] /\
+  reflect_where false demo_masters (Some [97; 117; 120]) [117; 113] = None.
+Proof. exact unqualified_index_query_refuted. Qed.
